@@ -205,6 +205,46 @@ def build_module(spec):
         r = ir.Binop(v, "-", v, "r", ir.u32)
         b.add_instruction(r)
         b.add_instruction(ir.Return(r))
+    elif k == "nest":  # the operation of spec["of"] applied to sub-expressions / constants instead of plain parameters
+        o, mode, h = spec["of"], spec["mode"], spec.get("helper", "+")
+        st = o.get("from", o.get("ty"))                      # operand type
+        rt = {"cast": o.get("to"), "cjmp": "i32", "store": None, "load": o.get("ty")}.get(o["k"], o.get("ty"))
+        f, b, ps = fn(rt, [st, st, "ptr"])
+        if mode == "expr":
+            x = ir.Binop(ps[0], h, ps[1], "x", _ty(st))
+            y = ir.Binop(ps[1], h, ps[0], "y", _ty(st))
+        else:
+            x = ir.Const(spec["value"], "x", _ty(st))
+            y = ir.Const(spec["value"], "y", _ty(st))
+        b.add_instruction(x)
+        b.add_instruction(y)
+        lhs, rhs = {"expr": (x, y), "constl": (x, ps[1]), "constr": (ps[0], y)}[mode]
+        if o["k"] == "binop":
+            r = ir.Binop(lhs, o["op"], rhs, "r", _ty(rt))
+        elif o["k"] == "unop":
+            r = ir.Unop(o["op"], lhs, "r", _ty(rt))
+        elif o["k"] == "cast":
+            r = ir.Cast(lhs, "r", _ty(rt))
+        elif o["k"] == "load":
+            ad = ir.Binop(ps[2], "+", ps[2], "ad", ir.ptr) if mode == "expr" else ir.Const(4096, "ad", ir.ptr)
+            b.add_instruction(ad)
+            r = ir.Load(ad, "r", _ty(rt))
+        elif o["k"] == "store":
+            b.add_instruction(ir.Store(lhs, ps[2]))
+            b.add_instruction(ir.Exit())
+            return m
+        elif o["k"] == "cjmp":
+            y_, n_ = blk(f, "yes"), blk(f, "no")
+            b.add_instruction(ir.CJump(lhs, o["cond"], rhs, y_, n_))
+            for bb, v in ((y_, 1), (n_, 0)):
+                cc = ir.Const(v, f"c{v}", ir.i32)
+                bb.add_instruction(cc)
+                bb.add_instruction(ir.Return(cc))
+            return m
+        else:
+            raise ValueError("nest of " + o["k"])
+        b.add_instruction(r)
+        b.add_instruction(ir.Return(r))
     elif k == "binopc":  # binop of a parameter and a constant on the given side
         f, b, (a,) = fn(spec["ty"], [spec["ty"]])
         c = ir.Const(spec["value"], "c", _ty(spec["ty"]))
@@ -376,6 +416,7 @@ def extract(key):
     types = target_types(arch)
     specs = matrix(types)
     sig = {}
+    head_spec = {}
     valtypes = set()
     build_errors = []
     for spec in specs:
@@ -387,6 +428,7 @@ def extract(key):
             build_errors.append((spec, type(e).__name__))
             continue
         for head, args, res, ty in syms:
+            head_spec.setdefault(head, spec)
             if head in sig and sig[head] != (args, res):
                 raise ValueError(f"{key}: head {head} used with two sortings {sig[head]} / {(args, res)}")
             sig[head] = (args, res)
@@ -426,7 +468,7 @@ def extract(key):
             excluded.append(head)
     terms = sorted(set(sig) | {n for r in sys_.rules for n in r.tree.get_defined_names() if n in sys_.terminals})
     nts = sorted(sys_.non_terminals)
-    d = dict(key=key, arch=arch, sys=sys_, types=types, specs=specs, sig=sig, sorts=sorts, guar=guar, excluded=excluded, witness=witness,
+    d = dict(key=key, arch=arch, sys=sys_, types=types, specs=specs, sig=sig, sorts=sorts, guar=guar, excluded=excluded, witness=witness, head_spec=head_spec,
              terms=terms, nts=nts, build_errors=build_errors)
     _cache[key] = d
     return d
@@ -930,6 +972,32 @@ def corpus_jobs():
     return jobs
 
 
+def nest_jobs(d, key, heads):
+    """targeted search: the operations behind `heads` with sub-expression and constant operands (a rule that became
+    conditional or context dependent still covers the plain REG operands of the matrix function)"""
+    jobs = []
+    ptr = str(d["arch"].info.type_infos["ptr"]).upper()
+    for head in heads:
+        o = d["head_spec"].get(head)
+        if not o or o["k"] not in ("binop", "unop", "cast", "load", "store", "cjmp"):
+            continue
+        st = o.get("from", o.get("ty"))
+        if st == "ptr":
+            continue
+        S = st.upper()
+        ops = "+-*" if st[0] == "f" else "+-&|^"
+        names = {v: k for k, v in BINOPS.items()}
+        helpers = [h for h in ops if names[h] + S not in d["excluded"]]
+        for opt in (0, 2):
+            if helpers:
+                jobs.append((key, {"k": "nest", "of": o, "mode": "expr", "helper": helpers[0]}, opt))
+            if "CONST" + S not in d["excluded"] or True:
+                for v in const_values(st)[:5]:
+                    for mode in ("constl", "constr"):
+                        jobs.append((key, {"k": "nest", "of": o, "mode": mode, "value": v}, opt))
+    return jobs
+
+
 def evaluate(ctx, groups, pre=()):
     """groups = [(tag, jobs, results)].  One driver call: `pre` requests first, then one `cover` per distinct
     captured tree.  Compares every tree with the Lean model and evaluates the property on every compile.
@@ -1025,6 +1093,11 @@ def check(ctx):
             spec = {"k": "random", "seed": ctx.rng.getrandbits(32), "types": d["types"], "ptr": ptr, "safe": True,
                     "avoid": [] if free else d["excluded"], "size": ctx.rng.choice([4, 8, 16, 30])}
             rjobs.append((k, spec, ctx.rng.choice([0, 2])))
+    # ---- targeted search around heads that newly lack an unconditional flat rule, and the conditional-only heads ------
+    for k in TARGETS:
+        d = info[k]
+        new = sorted(set(d["excluded"]) - known_heads(ctx, k) - set(COND_ONLY[k]))
+        jobs += nest_jobs(d, k, new + [h for h in COND_ONLY[k] if h in d["head_spec"]])
     allres = run_jobs(jobs + rjobs)
     results, rresults = allres[: len(jobs)], allres[len(jobs):]
     lap("compile")
